@@ -445,6 +445,12 @@ fn findings(path: &Path) -> Result<(BTreeMap<(String, String), usize>, Vec<Strin
     Ok((m, errors))
 }
 
+/// A sugared program of the faithfulness sub-check (and the text of its included library file, if any).
+pub fn sugared_program(t: &mut Tape) -> (String, Option<&'static str>) {
+    let p = gen_pair(t);
+    (p.sugared, p.lib_file)
+}
+
 fn faithfulness_case(ctx: &Ctx, tape: &[u8], rec: &Rec) -> Verdict {
     let mut t = Tape::new(tape);
     let p = gen_pair(&mut t);
